@@ -40,7 +40,7 @@ K_DUP = 'F29-duplicate-settings-entry-lists-directory-twice'
 class Impl:
     """The real SharesManager over a temp directory; paths are component lists relative to the temp root."""
 
-    def __init__(self, files, collect=True):
+    def __init__(self, files, collect=True, hostile=False):
         from vlib import vloop
         from aioslsk.shares.manager import SharesManager
         from aioslsk.settings import Settings, CredentialsSettings
@@ -51,7 +51,16 @@ class Impl:
         self.root = os.path.realpath(tempfile.mkdtemp(prefix='verif_c07_'))
         self.loop = vloop.new_loop()
         self.settings = Settings(credentials=CredentialsSettings(username='me', password='pw'))
-        self.sm = SharesManager(self.settings, EventBus(), None)
+        self.bus = EventBus()
+        self.sm = SharesManager(self.settings, self.bus, None)
+        if hostile:
+            # an application listener that raises on every shared-directory change: the event bus must swallow it
+            from aioslsk.events import SharedDirectoryChangeEvent
+
+            def raising(event):
+                raise RuntimeError('listener failure')
+            self._listener = raising
+            self.bus.register(SharedDirectoryChangeEvent, raising, priority=0)
         self.disk = {}
         for comps, mt in files:
             self.mkfile(comps, mt)
@@ -62,6 +71,7 @@ class Impl:
             vloop.close_loop(self.loop)
         finally:
             shutil.rmtree(self.root, ignore_errors=True)
+            shutil.rmtree(self.root + '_cache', ignore_errors=True)
             self.sm = None
             gc.collect()
             if self.gc_was:
@@ -122,6 +132,20 @@ class Impl:
                 d = self.sm.get_shared_directory(self.abs(st[1]))
                 self.loop.run_coro(self.sm.scan_directory_files(d))
                 d = None
+            elif k == 'restart':
+                # what a client restart does with the shares: write the shelve cache, read it back, re-apply the settings
+                from aioslsk.shares.cache import SharesShelveCache
+                cdir = self.root + '_cache'
+                os.makedirs(cdir, exist_ok=True)
+                self.sm.cache = SharesShelveCache(cdir)
+                self.settings.shares.directories = [
+                    SharedDirectorySettingEntry(path=d.directory, share_mode=d.share_mode, users=list(d.users)) for d in self.sm.shared_directories]
+                self.sm.write_cache()
+                self.sm._shared_directories = []
+                self.sm._term_map = {}
+                self.gc()
+                self.sm.read_cache()
+                self.sm.load_from_settings()
             elif k == 'load':
                 self.settings.shares.directories = [
                     SharedDirectorySettingEntry(path=self.abs(c), share_mode=DirectoryShareMode(m), users=list(us)) for c, m, us in st[1]]
@@ -166,9 +190,11 @@ class Impl:
         return {'dirs': dirs, 'keys': keys, 'nindexed': len(union), 'stats': tuple(self.sm.get_stats()), 'stale': stale}
 
 
-def run_history(files, steps, collect=True):
+def run_history(files, steps, collect=True, hostile=None):
     """Executes a history; returns the list of observations (one per step, None for plain ops)."""
-    im = Impl(files, collect=collect)
+    if hostile is None:
+        hostile = len(steps) % 3 == 0          # a third of the histories run with a raising listener on the event bus
+    im = Impl(files, collect=collect, hostile=hostile)
     out = []
     try:
         for st in steps:
@@ -180,6 +206,10 @@ def run_history(files, steps, collect=True):
                 snap = im.snapshot()
                 err = im.apply(st)
                 out.append({'disk': snap, 'err': err})
+            elif st[0] == 'restart':
+                ents = [[im.rel(d.absolute_path), d.share_mode.value, list(d.users), d.alias] for d in im.sm.shared_directories]
+                err = im.apply(st)
+                out.append({'entries': ents, 'err': err})
             elif st[0] in ('add', 'load'):
                 aliases = [im.alias(st[1])] if st[0] == 'add' else [im.alias(c) for c, _, _ in st[1]]
                 err = im.apply(st)
@@ -388,6 +418,12 @@ def gen_tree(rng):
                 sib = d1 + [d2[-1] + rng.choice([' 1999', '2', '_b', 'er'])]
                 if sib not in dirs:
                     dirs.append(sib)
+            if rng.random() < 0.35 and len(dirs) > 2:
+                # a directory with the same BASE NAME elsewhere in the tree
+                par = rng.choice([d for d in dirs if d and d != d2 and d != d1] or [d1])
+                twin = par + [d2[-1]]
+                if twin not in dirs and len(twin) <= 3:
+                    dirs.append(twin)
             if rng.random() < 0.4:
                 d3 = d2 + [gen_name(rng, 1)]
                 if d3 not in dirs:
@@ -570,7 +606,7 @@ def gen_history(rng, tier, force_chain=False):
             scan_all()
             checkpoint(settled=True)
             continue
-        elif r < 0.88:
+        elif r < 0.87:
             keep = [d for d in shared if rng.random() < 0.7]
             new = [d for d in cand if d not in shared and rng.random() < 0.25]
             ent = [[d, *gen_share(rng)] for d in keep + new]
@@ -582,7 +618,14 @@ def gen_history(rng, tier, force_chain=False):
             for e in ent:
                 if e[0] not in shared:
                     shared.append(e[0])
-        elif r < 0.92 and shared and disk:
+        elif r < 0.905 and shared:
+            steps.append(['restart'])
+            nest = [d for d in cand if d not in shared and any(d[:len(x)] == x and len(d) > len(x) for x in shared)]
+            if nest and rng.random() < 0.7:
+                d = rng.choice(nest)
+                steps.append(['add', d, *gen_share(rng)])
+                shared.append(d)
+        elif r < 0.93 and shared and disk:
             # a shared directory loses ALL its files on disk, then is rescanned
             d = rng.choice(shared)
             gone = [k for k in sorted(disk) if list(k[:len(d)]) == d]
@@ -681,6 +724,9 @@ def coq_history(nm: Names, hist, obs, name):
                 disks[key] = dn
                 pre.append(f'Definition {dn} : list file := [' + ';'.join(f'({nm.p(c)},{m})' for c, m in ob['disk']) + '].')
             rows.append(f'HOp (Scan {nm.p(st[1])} {disks[key]})')
+        elif k == 'restart':
+            ents = ';'.join(f'({nm.p(c)},{nm.s(a)},{MODE_COQ[m]},{nm.sl(us)})' for c, m, us, a in ob['entries'])
+            rows.append(f'HOp (LoadSettings [{ents}])')
         elif k == 'load':
             ents = ';'.join(f'({nm.p(c)},{nm.s(a)},{MODE_COQ[m]},{nm.sl(us)})' for (c, m, us), a in zip(st[1], ob['aliases']))
             rows.append(f'HOp (LoadSettings [{ents}])')
@@ -823,6 +869,15 @@ def directed_histories():
                                           ['rmfile', ['d', 'a.mp3']], ['rmfile', ['d', 'sub', 'b.mp3']], ['scan', ['d']], Q('mp3'), Q('a'), ['index', True]]})
     out.append({'files': files, 'steps': [['add', ['d'], 'everyone', []], ['scan', ['d']], ['rmfile', ['d', 'a.mp3']], ['add', ['d', 'sub'], 'friends', []],
                                           ['scan', ['d']], ['scan', ['d', 'sub']], Q('mp3', 'u1'), ['index', True]]})
+    # a nested share, and elsewhere in the scanned tree an ordinary directory with the same base name
+    files = [[['m', 'a1', 'live', 'x.mp3'], 5], [['m', 'a2', 'live', 'y.mp3'], 6], [['m', 'a2', 'live', 'deep', 'z.mp3'], 7], [['m', 'live', 'w.mp3'], 8]]
+    out.append({'files': files, 'steps': [['add', ['m'], 'everyone', []], ['add', ['m', 'a1', 'live'], 'friends', []], ['scan', ['m']], ['scan', ['m', 'a1', 'live']],
+                                          Q('mp3', 'u1'), Q('live'), ['index', True]]})
+    # restart (shares restored from the shelve cache), then a nested directory is shared before any rescan
+    files = [[['p', 'top.mp3'], 5], [['p', 'c', 'deep.mp3'], 6], [['p', 'c', 'd', 'deeper.mp3'], 7]]
+    for nested in (['p', 'c'], ['p', 'c', 'd']):
+        out.append({'files': files, 'steps': [['add', ['p'], 'everyone', []], ['scan', ['p']], ['restart'], Q('mp3'), ['add', nested, 'friends', []],
+                                              Q('mp3', 'u1'), Q('deep'), ['index', False], ['remove', nested], Q('mp3'), ['scan', ['p']], ['index', True]]})
     return out
 
 
